@@ -16,11 +16,13 @@ specfun("rules_ok", ["a"],
 specfun("rule_wf", ["r"], "implies(typeis(r, 'CheckMarginLevel'), not_none(r._margin_loans._exchange_ctx) and not_none(r._margin_loans._loan_mgr) "
                           "and same_object(r._margin_loans._exchange_ctx.account_balances, r.account) and ml_wf(r._margin_loans) "
                           "and prices_wf(r._margin_loans._exchange_ctx.prices))")
-# a candidate that leaves balances and borrowed as they are and only lowers holds (never below zero): what closing an
-# order asks for.  Statement-derived (C06: "released in full when the order closes for any reason"): no rule may reject it.
+# a candidate that leaves balances and borrowed as they are and only moves holds within [0, balance]: what reserving funds
+# for an accepted order and releasing them when it closes ask for.  Statement-derived (C06: "released in full when the
+# order closes for any reason"; C07: no loan is left behind because the hold after a successful borrow is refused): no
+# rule may reject such a candidate.  Verified for the repo's rules, assumed for user-defined ones.
 specfun("release_only", ["a", "b", "h", "r"],
         "same_content(b, a.balances) and same_content(r, a.borrowed) "
-        "and forall(lambda s=Str: at(h, s) >= 0 and at(h, s) <= at(a.holds, s))")
+        "and forall(lambda s=Str: at(h, s) >= 0 and at(h, s) <= at(b, s))")
 
 RULE_TYPES = {"updated_balances": "Dict[Str,Real]", "updated_holds": "Dict[Str,Real]", "updated_borrowed": "Dict[Str,Real]"}
 
@@ -77,7 +79,8 @@ contract(AB + "AccountBalances.update", props=P, types=UPD_TYPES,
          raises={"Error": [("all_or_nothing", "unchanged(self)"),
                            # never raised for an update that only releases holds (C06)
                            ("not_a_release", "not (forall(lambda s=Str: not (s in balance_updates) and not (s in borrowed_updates)) "
-                                             "and forall(lambda s=Str: at(hold_updates, s) <= 0 and at(self.holds, s) + at(hold_updates, s) >= 0))")]},
+                                             "and forall(lambda s=Str: at(self.holds, s) + at(hold_updates, s) >= 0 "
+                                             "and at(self.holds, s) + at(hold_updates, s) <= at(self.balances, s)))")]},
          modifies=["self.balances", "self.holds", "self.borrowed"],
          loops={0: dict(invariant=[("nz", "implies(IDX >= 1, nz(updated_balances, updated_holds, updated_borrowed))"),
                                    ("vh", "implies(IDX >= 2, vh(updated_balances, updated_holds))")])})
